@@ -105,10 +105,11 @@ def _mono(draw, n, lo=-40, hi=40, q=0.125):
 def axis_pair(draw, nmin=1):
     """(xs, targets): source points and targets with coincident, interleaved
     and outside points"""
-    n = draw(st.integers(nmin, 8))
+    n = draw(st.sampled_from([k for k in (1, 2, 2, 3, 3, 4, 5, 6, 7, 8)
+                              if k >= nmin]))
     xs = _mono(draw, n)
-    mode = draw(st.sampled_from(['same', 'inside', 'mixed', 'mixed',
-                                 'outside']))
+    mode = draw(st.sampled_from(['same', 'inside', 'inside', 'mixed', 'mixed',
+                                 'mixed', 'outside']))
     if mode == 'same':
         t = list(xs)
     else:
@@ -152,13 +153,14 @@ def case_weights(draw):
 def case_interpdim(draw):
     xs, t, mode = draw(axis_pair(nmin=2))
     n = len(xs)
-    others = draw(st.lists(st.sampled_from(['a', 'b', 'c']), min_size=0,
-                           max_size=3, unique=True))
+    others = draw(st.sampled_from([[], ['a'], ['a', 'b'], ['b', 'a'],
+                                   ['a', 'b', 'c'], ['c', 'a', 'b']]))
     olen = {d: draw(st.integers(1, 3)) for d in others}
     nv = draw(st.integers(1, 3))
     vs = []
     for i in range(nv):
-        k = draw(st.integers(0, len(others)))
+        k = draw(st.sampled_from([j for j in (0, 1, 1, 2, 2, 3, 3)
+                                  if j <= len(others)]))
         od = list(draw(st.permutations(others)))[:k]
         pos = draw(st.integers(0, len(od)))
         dims = od[:pos] + ['z'] + od[pos:]
@@ -219,10 +221,10 @@ def case_sigma(draw):
     top = 64
     bot = draw(st.sampled_from([0, 0, 0, 16]))
     span = top - bot
-    nl = draw(st.integers(1, min(8, span)))
-    ml = draw(st.integers(1, min(8, span)))
+    nl = draw(st.sampled_from([1, 2, 2, 3, 3, 4, 5, 6, 7, 8]))
+    ml = draw(st.sampled_from([1, 2, 2, 3, 3, 4, 5, 6, 7, 8]))
     src = draw(sigma_edges(top, bot, nl))
-    share = draw(st.sampled_from(['indep', 'indep', 'subset', 'same']))
+    share = draw(st.sampled_from(['indep'] * 5 + ['subset'] * 2 + ['same']))
     if share == 'same':
         dst = list(src)
     elif share == 'subset' and nl >= 2:
@@ -231,6 +233,14 @@ def case_sigma(draw):
         dst = sorted(set([src[0], src[-1]] + keep), reverse=True)
     else:
         dst = draw(sigma_edges(top, bot, ml))
+    if share != 'same' and dst == src:
+        # Hypothesis likes to repeat draws: force a genuinely different grid
+        cand = [k for k in range(bot + 1, top) if k / 64. not in src]
+        extra = draw(st.sampled_from(cand)) / 64.
+        inner = dst[1:-1]
+        if len(inner) >= 7:
+            inner = inner[1:]
+        dst = sorted(set([dst[0], dst[-1], extra] + inner), reverse=True)
     nt, nr, nc = draw(st.integers(1, 2)), draw(st.integers(1, 2)), \
         draw(st.integers(1, 3))
     return dict(kind='sigma', src=src, dst=dst, shape=[nt, nr, nc],
@@ -317,7 +327,8 @@ def check_weights(spec, r):
     got = (W * lin[:, None]).sum(0)
     lo, hi = xs.min(), xs.max()
     inr = (t >= lo) & (t <= hi)
-    want = a * (t if ex else np.clip(t, lo, hi)) + b
+    # one source point defines no line: continuation of its value
+    want = a * (t if (ex and n > 1) else np.clip(t, lo, hi)) + b
     sc = _scale(lin, want)
     bad = np.abs(got - want) > TOL * sc
     if bad.any():
